@@ -2,6 +2,7 @@ package main
 
 import (
 	"fmt"
+	"go/token"
 	"go/types"
 	"strings"
 
@@ -24,6 +25,9 @@ func init() {
 
 func runC08(c *Ctx) {
 	p := c.P
+	ruleRoutableAPIDelegates(c, "R08.5", "ServeErrorFor")
+	ruleRoutableAPIDelegates(c, "R08.1", "ProducersFor", "DefaultProduces")
+	ruleOffersDefaultLast(c, "R08.2")
 	f := p.Fn("(*rt/middleware.Context).Respond")
 	rw, r, route, data := paramOf(f, 0), paramOf(f, 1), paramOf(f, 3), paramOf(f, 4)
 	_ = r
@@ -121,8 +125,9 @@ func runC08(c *Ctx) {
 			continue
 		}
 		ok := codeV != nil
+		var badO *Origin
 		if ok {
-			ok, _ = allOrigins(a[0], oIsValue(codeV))
+			ok, badO = allOrigins(a[0], oIsValue(codeV))
 			if phi, isPhi := a[0].(*ssa.Phi); !ok && isPhi {
 				// one status variable for both cases: the declared status, or the constant 200 on the edges without an operation
 				ok = true
@@ -137,7 +142,11 @@ func runC08(c *Ctx) {
 				}
 			}
 		}
-		c.obI("R08.2", ci, "status-from-operation", ok, "for a routed operation the status written is the operation's declared success status", "status "+describe(a[0]))
+		why := "status " + describe(a[0])
+		if !ok && badO != nil {
+			why += ": origin " + describeOrigin(badO)
+		}
+		c.obI("R08.2", ci, "status-from-operation", ok, "for a routed operation the status written is the declared success status of this request's operation (not a remembered one)", why)
 	}
 	c.obRF("R08.2", f, "writes-status", nWH >= 1 && len(succ) == 1, "Respond writes a status on the success branches", "")
 
@@ -160,7 +169,30 @@ func runC08(c *Ctx) {
 		okP, bad := allOrigins(ci.Common().Value, producerOrigin(isNormFormat, isDefProd)...)
 		c.obI("R08.1", ci, "producer-for-negotiated-format", okP, "the body is written by the producer registered for the normalised negotiated format (or the default-producer fallback)", "origin "+describeOrigin(bad))
 	}
-	c.min("R08.3", 3)
+	// … and a body for everything else: once the success status is written, the handler's result — whatever it is,
+	// nil included — goes through the producer unless the status is 204 or the request is a HEAD
+	{
+		isHead := factEqString(vFieldLoadO("net/http.Request", "Method"), "HEAD", true)
+		var prods []ssa.Instruction
+		for _, ci := range callsIn(f, "(rt.Producer).Produce") {
+			prods = append(prods, ci)
+		}
+		for _, ci := range callsIn(f, "(net/http.ResponseWriter).WriteHeader") {
+			cut := isHead
+			if codeV != nil {
+				// (the status variable may also hold the constant 200 of the no-operation case)
+				cut = anyFact(isHead, factEqInt(vOrigins(oIsValue(codeV), func(o Origin) bool { _, isK := constInt(o.V); return isK }), 204, true))
+			}
+			silent := false
+			for _, r := range realReturns(f) {
+				if pathExists(f, ci, r, cut, isOneOf(prods...)) {
+					silent = true
+				}
+			}
+			c.obI("R08.3", ci, "body-unless-204-or-HEAD", !silent, "after the success status every result is encoded by the producer, except under a 204 status or for a HEAD request (a nil result is still the producer's to render)", "a path returns after WriteHeader without calling the producer although the status is not 204 and the method is not HEAD")
+		}
+	}
+	c.min("R08.3", 4)
 
 	// R08.4 responder
 	for _, ci := range callsIn(f, "(rt/middleware.Responder).WriteResponse") {
@@ -181,6 +213,21 @@ func runC08(c *Ctx) {
 		}
 	}
 	c.obRF("R08.5", f, "error-branch", errTA != nil, "Respond recognises an error result", "")
+	// a result that knows how to write itself does so whatever else it is: the Responder test is not preceded by the
+	// error test (a value implementing both would go to the API's error responder and never write itself)
+	{
+		var respTA *ssa.TypeAssert
+		for _, in := range instrs(f) {
+			if ta, ok := in.(*ssa.TypeAssert); ok && ta.X == ssa.Value(data) && typeStr(ta.AssertedType) == "rt/middleware.Responder" {
+				respTA = ta
+			}
+		}
+		if errTA != nil && respTA != nil {
+			c.obI("R08.4", respTA, "responder-tested-before-error", !pathExists(f, errTA, respTA, nil, nil), "the result is asked whether it is a Responder before it is asked whether it is an error", "the Responder test is reached only after the error test: a result that is both never writes itself")
+		} else {
+			c.obRF("R08.4", f, "responder-test", respTA != nil, "Respond recognises a result that writes itself", "")
+		}
+	}
 	if errTA != nil {
 		errV := extractOf(errTA, 0)
 		isJSONSet := func(in ssa.Instruction) bool {
@@ -232,6 +279,22 @@ func runC08(c *Ctx) {
 					elems, okk := sliceLitElems(sp.Call.Args[1])
 					okV = strings.HasPrefix(fm, "Basic realm=") && okk && len(elems) == 1 && fb(elems[0])
 				}
+				// "Basic realm=" + strconv.Quote(realm), possibly built by a helper given the realm
+				if bo, isBo := o.V.(*ssa.BinOp); isBo && bo.Op == token.ADD {
+					pre, _ := constString(bo.X)
+					saved := paramEnv
+					if o.Env != nil {
+						paramEnv = o.Env
+					}
+					isRealm := fb(bo.Y)
+					if qc := asCall(bo.Y); qc != nil && calleeName(&qc.Call) == "strconv.Quote" {
+						isRealm = fb(qc.Call.Args[0])
+					}
+					paramEnv = saved
+					if strings.HasPrefix(pre, "Basic realm=") && isRealm {
+						okV = true
+					}
+				}
 			}
 			c.obI("R08.5", ci, "challenge-names-realm", g && okV, "a failed basic-auth attempt is challenged with the realm recorded by the authenticator", "")
 			// ... and always: once the marker is there, no error class skips the challenge
@@ -265,6 +328,11 @@ func runC08(c *Ctx) {
 		}
 	}
 	c.obRF("R08.5", p.Fn("rt/security.BasicAuthRealm"), "authenticators-record-in-place", nOwn >= 3, "positive instances of the in-place request overwrite rule (package security)", fmt.Sprintf("%d in-place overwrites found in package security", nOwn))
+	// the marker's key is its own: no other value recorded in the request context by package security shares it
+	{
+		_, fbT := ctxKeyReadBy(p.Fn("rt/security.FailedBasicAuthCtx"))
+		ruleKeyConstantsDistinct(c, "R08.5", "rt/security", fbT)
+	}
 	// realm marker in the basic authenticators
 	for _, name := range []string{"rt/security.BasicAuthRealm", "rt/security.BasicAuthRealmCtx"} {
 		outer := p.Fn(name)
@@ -282,7 +350,8 @@ func runC08(c *Ctx) {
 				continue
 			}
 			marks = append(marks, call)
-			os := originsOf(call.Call.Args[2])
+			var os []Origin
+			wvAt(call, func() { os = originsOf(call.Call.Args[2]) }) // (in the authenticator's calling context when the store lives in a helper)
 			hasParam := false
 			okAll := len(os) > 0
 			for _, o := range os {
@@ -326,8 +395,15 @@ func runC08(c *Ctx) {
 		// the marked context is installed on the request (*r = *r.WithContext(ctx))
 		nInst := 0
 		for _, in := range instrs(inner) {
-			if st, ok := in.(*ssa.Store); ok && st.Addr == ssa.Value(paramOfType(inner, "*net/http.Request")) {
-				nInst++
+			if st, ok := in.(*ssa.Store); ok {
+				if st.Addr == ssa.Value(paramOfType(inner, "*net/http.Request")) {
+					nInst++
+				} else if st.Parent() != inner && typeStr(st.Val.Type()) == "net/http.Request" {
+					// the in-place overwrite lives in a helper that is handed the request
+					if someOrigin(st.Addr, oIsValue(paramOfType(inner, "*net/http.Request"))) {
+						nInst++
+					}
+				}
 			}
 		}
 		c.obRF("R08.5", inner, "installs-marked-context", nInst >= 1, "the marked context is installed on the caller's request", "")
@@ -385,5 +461,72 @@ func producerOrigin(isNormFormat, isDefProd VPred) []OPred {
 			}
 			return typeStr(lk.X.Type()) == "map[string]rt.Producer" && (isNormFormat(lk.Index) || isDefProd(lk.Index))
 		},
+	}
+}
+
+// ruleOffersDefaultLast: the offers Respond negotiates over are the operation's produces entries in their order with
+// the API's default producer type LAST and only there: the chain of appends that builds the list ends in an
+// unconditional append of DefaultProduces(), and every other append adds an element of `produces` behind the test
+// that it is not the default. (C07: "its produces list plus the API's default type, last"; C08/C19: the negotiated
+// type, and the empty default of an API built without JSON defaults never leading the list.)
+func ruleOffersDefaultLast(c *Ctx, rule string) {
+	p := c.P
+	f := p.Fn("(*rt/middleware.Context).Respond")
+	rfs := callsIn(f, "(*rt/middleware.Context).ResponseFormat")
+	if len(rfs) != 1 {
+		c.obRF(rule, f, "offers-negotiated-once", false, "Respond negotiates over one offers list", fmt.Sprintf("%d ResponseFormat calls", len(rfs)))
+		return
+	}
+	_, a := callArgs(rfs[0].Common())
+	offers := a[len(a)-1]
+	produces := paramOfType(f, "[]string")
+	isDefault := func(v ssa.Value) bool {
+		ok, _ := allOrigins(v, oCall(-1, "(rt/middleware.RoutableAPI).DefaultProduces"))
+		return ok
+	}
+	last := asCall(offers)
+	if os := originsOf(offers); last == nil && len(os) == 1 {
+		last = asCall(os[0].V)
+	}
+	okLast := last != nil && calleeName(&last.Call) == "builtin append"
+	if okLast {
+		elems, ok := sliceLitElems(last.Call.Args[1])
+		okLast = ok && len(elems) == 1 && isDefault(elems[0]) && dominates(last, rfs[0])
+	}
+	c.obI(rule, rfs[0], "default-producer-offered-last", okLast, "the list of offers ends with the API's default producer type, appended unconditionally after the operation's own types", "the offers handed to the negotiation do not end in an unconditional append of DefaultProduces()")
+	if !okLast {
+		return
+	}
+	notDefault := func(elem ssa.Value) EdgePred {
+		return func(cond ssa.Value, branch bool) bool {
+			cnd, b := stripNot(cond, branch)
+			bo, ok := cnd.(*ssa.BinOp)
+			if !ok || (bo.Op != token.EQL && bo.Op != token.NEQ) {
+				return false
+			}
+			if !((bo.X == elem && isDefault(bo.Y)) || (bo.Y == elem && isDefault(bo.X))) {
+				return false
+			}
+			return b == (bo.Op == token.NEQ)
+		}
+	}
+	for _, in := range instrs(f) {
+		call, ok := in.(*ssa.Call)
+		if !ok || call == last || calleeName(&call.Call) != "builtin append" || typeStr(call.Type()) != "[]string" {
+			continue
+		}
+		if !reachesThroughAppends(last.Call.Args[0], call, map[ssa.Value]bool{}) {
+			continue
+		}
+		elems, okE := sliceLitElems(call.Call.Args[1])
+		okA := false
+		if okE && len(elems) == 1 {
+			if ad, isLd := derefLoad(elems[0]); isLd {
+				if ia, isIA := ad.(*ssa.IndexAddr); isIA && produces != nil && ia.X == ssa.Value(produces) {
+					okA = guardedBy(call, ia, notDefault(elems[0]))
+				}
+			}
+		}
+		c.obI(rule, call, "earlier-offers-are-non-default-produces", okA, "before the default, only entries of the operation's produces list that differ from the default are offered (the default is never offered early, nor twice)", "an offer is appended that is not a produces entry tested to differ from the default")
 	}
 }
